@@ -42,7 +42,12 @@ RULE = ("state types positive/complex/mixed, nv 1..5 in both tiers (quick: fewer
         "sum_s p(s)/Z apply(s) == Re tr(rho Op) whenever the tensor holds every basis state once, per-row values equal to those of a fresh full-basis "
         "evaluation of the same state, tensor unchanged by apply, earlier returned values not altered by later calls")
 ASSUMPTIONS = ["torch elementwise kernels implement the real functions up to rounding",
-               "states with |effective energy| > 300 are skipped (double overflow in |psi|^2 products), counted as skipped_overflow"]
+               "states with |effective energy| > 300 are skipped (double overflow in |psi|^2 products), counted as skipped_overflow",
+               "histories: a mutation operator is the CALLER's action (torch in-place ops, fit, load, optimizer ...); when the operator itself raises, "
+               "the step is skipped and counted ('history: mutation operator raised'), only apply / Observable.sample on the mutated objects are required to work",
+               "OUT of scope of the histories: re-assigning the constructor attributes of a live observable (O.absolute, O.c, O.periodic_bcs - only the "
+               "constructor arguments are documented), so an implementation that prepares per-instance constants in __init__ is accepted; sample tensors of "
+               "other dtypes than double; GPU"]
 
 I2 = np.eye(2, dtype=complex)
 PX = np.array([[0, 1], [1, 0]], dtype=complex)
@@ -533,12 +538,14 @@ def reference(H, box):
     return ref
 
 
-def evaluate(H, box, buf, label, acc=None, rowcheck=True):
-    """Every observable of the pool applied to (the live state, the very tensor object buf) in its CURRENT condition."""
+def evaluate(H, box, buf, label, acc=None, rowcheck=True, names=None, scribble=None):
+    """Observables of the pool applied to (the live state, the very tensor object buf) in its CURRENT condition.
+    names=None: all of them, the order rotated from step to step (so that every observable is at some point the last one
+    evaluated before a mutation and the first one after it); names=[...]: only these, in this order."""
     import torch
     ctx = H.ctx
     H.step += 1
-    H.log.append(label)
+    H.log.append(label if names is None else "%s {%s}" % (label, ", ".join(names)))
     ctx.count("history evaluations")
     if not box.finite:
         ctx.count("history: skipped_overflow")
@@ -550,21 +557,46 @@ def evaluate(H, box, buf, label, acc=None, rowcheck=True):
     N = len(box.sp)
     full = len(rows) == N and np.array_equal(np.sort(rows), np.arange(N))
     pool = obs_pool(ctx)
+    table = {t[0]: t for t in obs_table(box.nv)}
+    if names is None:
+        order = list(table)
+        r = (3 * H.step) % len(order)
+        order = order[r:] + order[:r]
+    else:
+        order = list(names)
     outs, kept = {}, []
     shown = rows.tolist() if len(rows) <= 32 else "%d rows" % len(rows)
-    for name, ctor, Op, twin in obs_table(box.nv):
+    for name in order:
         if name not in pool:
-            pool[name] = ctor()
+            pool[name] = table[name][1]()
         t, out = h_apply(H, box, pool[name], name, buf)
         if out is None:
             continue
         outs[name] = out
         kept.append([name, t, out.copy(), False])
+    # the weights as the library itself gives them (observe_at: "weighted by probability(space)/Z"), next to the numpy ones
+    w_lib = None
+    if full and names is None:
+        try:
+            pl = np.array(box.s.probability(buf).detach().cpu().numpy(), dtype=float)
+            if pl.shape == (N,) and np.all(np.isfinite(pl)) and pl.sum() > 0:
+                w_lib = pl / pl.sum()
+        except Exception:
+            ctx.count("history: probability(buffer) raised (C01/C02's clause; not required here)")
+    for name in order:
+        if name not in outs:
+            continue
+        out, Op, twin = outs[name], table[name][2], table[name][3]
         if Op is not None and full:
-            want, got = float(np.trace(box.rho_n @ Op).real), float(np.dot(box.w[rows], out))
-            if not abs(got - want) <= 1e-8 + 1e-7 * abs(want):
-                ctx.require(name + ": sum_s p(s)/Z * apply(s) == Re tr(rho Op)", False, H.case(box, name, rows_now=shown, after=label),
-                            {"estimator_mean": got, "trace": want})
+            want = float(np.trace(box.rho_n @ Op).real)
+            for wts, src_ in ((box.w[rows], "numpy, from the current parameters"), (w_lib, "probability(buffer) of the library, normalised")):
+                if wts is None:
+                    continue
+                got = float(np.dot(wts, out))
+                if not abs(got - want) <= 1e-8 + 1e-7 * abs(want):
+                    ctx.require(name + ": sum_s p(s)/Z * apply(s) == Re tr(rho Op)", False, H.case(box, name, rows_now=shown, after=label, weights=src_),
+                                {"estimator_mean": got, "trace": want})
+                    break
         if twin is not None and twin in outs:
             if not np.allclose(out, np.abs(outs[twin]), rtol=1e-12, atol=0):
                 ctx.require(twin + ": absolute=True is the pointwise absolute value", False, H.case(box, name, rows_now=shown, after=label))
@@ -576,7 +608,7 @@ def evaluate(H, box, buf, label, acc=None, rowcheck=True):
             ctx.require(name.replace("(absolute)", "") + ": the values returned by an earlier apply are not altered by a later apply", False,
                         H.case(box, name, after=label), {"then": val[:4].tolist(), "now": t.detach().cpu().numpy()[:4].tolist()})
     H.kept = kept
-    if H.step % 2 == 0:
+    if (H.step % 2 == 0) if scribble is None else scribble:
         # the caller edits the tensors apply returned (they are the caller's): later evaluations must not depend on them
         for k in kept:
             try:
@@ -602,11 +634,12 @@ def evaluate(H, box, buf, label, acc=None, rowcheck=True):
         if first:
             # the reference ran on other tensors: evaluate the buffer once more (nothing changed: same values) so that it is
             # again the most recently evaluated tensor when the next mutation comes
-            for name, ctor, Op, twin in obs_table(box.nv):
+            for name in order:
                 t, out = h_apply(H, box, pool[name], name, buf)
                 if out is not None and name in outs and not np.allclose(out, outs[name], rtol=1e-9, atol=1e-11):
                     ctx.require(name.replace("(absolute)", "") + ": value of a row does not depend on the rest of the batch", False,
-                                H.case(box, name, rows_now=shown, after=label + "; evaluated a second time with nothing changed"))
+                                H.case(box, name, rows_now=shown, after=label + "; evaluated a second time with nothing changed" +
+                                       ("" if not (kept and kept[0][3]) else " except that the caller overwrote the tensors the first evaluation returned")))
     return outs
 
 
@@ -729,9 +762,10 @@ def make_buffer(H, box, variant):
         buf.copy_(first)
         return buf, {"base": base, "write_base": lambda t: base.__setitem__(slice(0, 2 * N, 2), t)}
     if variant == "column-major storage":
-        buf = torch.zeros(n, N, dtype=torch.double).t()
+        base = torch.zeros(n, N, dtype=torch.double)
+        buf = base.t()
         buf.copy_(first)
-        return buf, {}
+        return buf, {"base": base, "write_base": lambda t: base.copy_(t.t())}
     if variant == "returned by generate_hilbert_space":
         try:
             buf = box.s.generate_hilbert_space()
@@ -877,11 +911,18 @@ def param_ops(H, box):
                 getattr(s, net).aux_bias.data.zero_()
 
     def short_fit():
+        if len({tuple(getattr(getattr(s, net), PNAMES[kind][0]).shape) for net in nets}) > 1:
+            # an earlier step gave the two networks different num_hidden: training such a state is outside fit's contract
+            H.ctx.count("history: short fit not applicable (networks of different sizes), replaced by .data.add_")
+            for net in nets:
+                getattr(s, net).visible_bias.data.add_(T(H.values(nv, True)))
+            return
         H.tseed()
         data = T(H.rng.integers(0, 2, size=(12, nv)))
         kw = dict(epochs=1, pos_batch_size=4, neg_batch_size=4, k=1, lr=0.1, progbar=False)
         if kind != "positive":
             bases = np.array([[str(c) for c in H.rng.choice(["X", "Y", "Z"], size=nv, p=[0.2, 0.2, 0.6])] for _ in range(12)])
+            bases[:4, :] = "Z"          # fit seeds its negative-phase chains from reference-basis rows: there must be some
             kw["input_bases"] = bases
         import warnings
         with warnings.catch_warnings():
@@ -1022,11 +1063,88 @@ def script_objects(H):
     return boxes[0]
 
 
-SCRIPTS = {"buffer": script_buffer, "params": script_params, "stream": script_stream, "objects": script_objects}
+def solo_names(H, box):
+    """[[names evaluated together]]: every observable on its own (an absolute=True one followed by its twin, which the |.| clause needs)"""
+    out = []
+    for name, ctor, Op, twin in obs_table(box.nv):
+        out.append([name] if twin is None else [name, twin])
+    if H.spec.get("shuffle"):
+        out = [out[i] for i in H.rng.permutation(len(out))]
+    return out
+
+
+SOLO_BUFFER_OPS = ["copy_", ".data.copy_ (no version bump)", "written through a numpy view (no version bump)",
+                   "chain advanced with sample(initial_state=buffer, overwrite=True)", "in-place row permutation",
+                   "slice assignment buf[:] = rows", "flip_spin(i, buffer) (the library's in-place helper)", "zero_().add_(rows)",
+                   "written through the base tensor / another view", "bernoulli_", "two rows swapped", "row-by-row assignment",
+                   "all spins flipped in place (sub_(1).abs_())", "out= of a torch op"]
+
+
+def script_solo(H):
+    """ONE observable at a time: evaluate, change the tensor in place, evaluate the same observable again - nothing else is evaluated
+    in between (a one-slot memo shared by several observables is displaced when they are evaluated in turn).  Between the block of one
+    observable and the next there is a mutation too, so (last evaluated before, first evaluated after) also runs over neighbouring pairs."""
+    spec = H.spec
+    box = new_state(H, spec["kind"], spec["nv"])
+    buf, layout = make_buffer(H, box, spec.get("buffer", "plain"))
+    evaluate(H, box, buf, "initial contents (%s)" % spec.get("buffer", "plain"))          # all observables; builds the reference
+    ops = dict(sample_ops(H, box, layout))
+    k = 0
+    per = spec.get("n_ops", 5)
+    for names in solo_names(H, box):
+        evaluate(H, box, buf, "solo", names=names, scribble=False)
+        # first the three representative kinds (in-place with / without version bump), then a rotating selection of the others
+        labels = SOLO_BUFFER_OPS[:3] + [SOLO_BUFFER_OPS[3 + (k + j) % (len(SOLO_BUFFER_OPS) - 3)] for j in range(max(0, per - 3))]
+        k += max(0, per - 3)
+        for label in labels:
+            try:
+                ops[label](buf)
+            except Exception as e:
+                H.mutation_failed(label, e)
+                continue
+            H.ctx.count("history op (solo): " + label)
+            evaluate(H, box, buf, label, names=names, scribble=False)
+        # nothing changed but the tensor apply returned (the caller's own): the same call again
+        evaluate(H, box, buf, "nothing changed", names=names, scribble=True)
+        evaluate(H, box, buf, "nothing changed; the tensors returned by the previous apply were overwritten by the caller", names=names, scribble=False)
+        H.ctx.count("history op (solo): returned tensor overwritten, same call again")
+    return box
+
+
+def script_solo_params(H):
+    """ONE observable at a time: evaluate on the full-basis tensor, change the parameters of the live state, evaluate again."""
+    spec = H.spec
+    box = new_state(H, spec["kind"], spec["nv"])
+    buf, layout = make_buffer(H, box, spec.get("buffer", "plain"))
+    ops = param_ops(H, box)
+    groups = solo_names(H, box)
+    per = spec.get("n_ops", 4)
+    k = 0
+    for names in groups:
+        evaluate(H, box, buf, "solo", names=names, rowcheck=False, scribble=False)
+        for j in range(per):
+            label, fn = ops[(k + j) % len(ops)]
+            try:
+                fn()
+            except Exception as e:
+                H.mutation_failed(label, e)
+                continue
+            box.refresh()
+            box.nh = int(box.P["am"][0].shape[0])
+            H.ctx.count("history op (solo): " + label)
+            evaluate(H, box, buf, label, names=names, rowcheck=False, scribble=False)
+        k += per
+    return box
+
+
+SCRIPTS = {"buffer": script_buffer, "params": script_params, "stream": script_stream, "objects": script_objects,
+           "solo": script_solo, "solo_params": script_solo_params}
 
 FIXED_HISTORIES = [
     {"script": "buffer", "kind": "positive", "nv": 2, "buffer": "plain", "hseed": 810001},
     {"script": "params", "kind": "complex", "nv": 2, "buffer": "plain", "hseed": 810002},
+    {"script": "solo", "kind": "complex", "nv": 2, "buffer": "plain", "hseed": 810013},
+    {"script": "solo_params", "kind": "mixed", "nv": 2, "buffer": "plain", "hseed": 810014, "n_ops": 17},
     {"script": "buffer", "kind": "mixed", "nv": 2, "buffer": "returned by generate_hilbert_space", "hseed": 810003},
     {"script": "stream", "kind": "complex", "nv": 3, "hseed": 810004},
     {"script": "params", "kind": "mixed", "nv": 2, "buffer": "view of a larger tensor", "hseed": 810005},
@@ -1037,6 +1155,10 @@ FIXED_HISTORIES = [
     {"script": "stream", "kind": "positive", "nv": 1, "hseed": 810010},
     {"script": "buffer", "kind": "positive", "nv": 1, "buffer": "every second row of a larger tensor", "hseed": 810011},
     {"script": "objects", "kind": "complex", "nv": 3, "buffer": "column-major storage", "hseed": 810012},
+    {"script": "solo", "kind": "mixed", "nv": 3, "buffer": "view of a larger tensor", "hseed": 810015},
+    {"script": "solo_params", "kind": "complex", "nv": 3, "buffer": "returned by generate_hilbert_space", "hseed": 810016, "n_ops": 6},
+    {"script": "solo", "kind": "positive", "nv": 2, "buffer": "returned by sample", "hseed": 810017},
+    {"script": "solo_params", "kind": "positive", "nv": 2, "buffer": "plain", "hseed": 810018, "n_ops": 17},
 ]
 
 
@@ -1056,12 +1178,14 @@ def run_history(ctx, spec):
 
 def random_history_spec(ctx):
     rng = ctx.rng
-    script = str(rng.choice(["buffer", "params", "stream", "objects"], p=[0.4, 0.3, 0.15, 0.15]))
+    script = str(rng.choice(["buffer", "params", "stream", "objects", "solo", "solo_params"], p=[0.25, 0.2, 0.1, 0.1, 0.2, 0.15]))
     nv = int(rng.choice([1, 2, 3, 4], p=[0.15, 0.35, 0.3, 0.2]))
     spec = {"script": script, "kind": str(rng.choice(["positive", "complex", "mixed"])), "nv": nv,
             "buffer": str(rng.choice(BUFFER_VARIANTS)), "hseed": int(rng.integers(1, 2 ** 31 - 1)), "shuffle": True}
     if not ctx.thorough:
-        spec["n_ops"] = 8
+        spec["n_ops"] = {"solo": 4, "solo_params": 3}.get(script, 8)
+    elif script in ("solo", "solo_params"):
+        spec["n_ops"] = 6
     if script == "objects" and nv == 4:
         spec["nv"] = 3
     return spec
@@ -1085,7 +1209,7 @@ def run(ctx):
     # table-fed model: the observable layer alone, on the implementation's own psi / rho values
     table_cases(ctx)
     # random histories on the same objects (after the main stream, whose draws for a given seed stay what they were)
-    for _ in range(24 if ctx.thorough else 8):
+    for _ in range(48 if ctx.thorough else 16):
         run_history(ctx, random_history_spec(ctx))
 
 
@@ -1134,6 +1258,8 @@ def search(ctx, broken, budget):
                 nh = int(ctx.rng.integers(1, nv + 2))
                 na = int(ctx.rng.integers(1, nv + 2)) if kind == "mixed" else 0
                 check_state(ctx, kind, nv, nh, na, draw(ctx, kind, nv, nh, na), with_model=False)
+                if len(ctx.failures) == n0:
+                    run_history(ctx, random_history_spec(ctx))
                 if len(ctx.failures) > n0:
                     return ctx.failures[n0]
                 if time.time() - t0 > budget:
